@@ -19,7 +19,7 @@ from mc import common
 from mc.oracles import geometry as geo
 
 LEVEL = "exploration"
-CLASSES = ["Cuboid", "Cylinder", "CylinderSegment", "Sphere", "Tetrahedron", "TriangularMesh", "Triangle", "Circle", "Polyline", "Dipole", "DipoleMz", "DipolePz", "DipoleMx", "TriangularMeshMulti", "TriangularMeshUnchecked",
+CLASSES = ["Cuboid", "Cylinder", "CylinderSegment", "Sphere", "Tetrahedron", "TriangularMesh", "Triangle", "Circle", "Polyline", "Dipole", "DipoleMz", "DipolePz", "DipoleMx", "TriangularMeshMulti", "TriangularMeshUnchecked", "TriangleNormalPol",
            "Sensor"]
 PATHS = ["static", "transl3", "rot4", "spin4"]
 FRAMES = ["default", 1, 2, [0, 2], [0, 9]]
@@ -35,7 +35,8 @@ PAR = {"Cuboid": {"dimension": (1.0, 1.2, 0.8)}, "Cylinder": {"dimension": (1.0,
 _MV = np.concatenate([np.array(TV) * 0.4 + np.array((1.3 * k - 4.5, 0.2 * (k % 3), 0.1 * k)) for k in range(8)])
 _MF = np.concatenate([np.array(TF) + 4 * k for k in range(8)])
 PAR["TriangularMeshMulti"] = {"vertices": _MV, "faces": _MF}
-PAR["TriangularMeshUnchecked"] = {"vertices": TV, "faces": TF}   # built with every mesh check switched off: its status stays "unchecked"
+PAR["TriangularMeshUnchecked"] = {"vertices": TV, "faces": TF}
+PAR["TriangleNormalPol"] = {"vertices": [(-0.5, -0.4, 0.0), (0.9, -0.3, 0.0), (-0.2, 0.8, 0.0)]}   # polarization along the normal: drawn as a thin prism (for the colour gradient)   # built with every mesh check switched off: its status stays "unchecked"
 UNIT_FACTOR = {"m": 1.0, "mm": 1e3, "km": 1e-3, "cm": 1e2, "dm": 1e1, "µm": 1e6, "um": 1e6, "nm": 1e9, "Mm": 1e-6, "Gm": 1e-9, "Tm": 1e-12, "pm": 1e12}
 
 
@@ -50,6 +51,7 @@ def mk(cls, pathkind, scale=1.0):
         par = {k: float(v) for k, v in par.items()}
     C = {"Cuboid": magpy.magnet.Cuboid, "Cylinder": magpy.magnet.Cylinder, "CylinderSegment": magpy.magnet.CylinderSegment,
          "Sphere": magpy.magnet.Sphere, "Tetrahedron": magpy.magnet.Tetrahedron, "TriangularMesh": magpy.magnet.TriangularMesh,
+         "TriangleNormalPol": lambda **kw: magpy.misc.Triangle(**{**kw, "polarization": (0.0, 0.0, 0.7)}),
          "TriangularMeshUnchecked": lambda **kw: magpy.magnet.TriangularMesh(check_open="skip", check_disconnected="skip", check_selfintersecting="skip",
                                                                              reorient_faces="skip", **kw),
          "TriangularMeshMulti": lambda **kw: magpy.magnet.TriangularMesh(check_disconnected="ignore", style_mesh_disconnected_show=True, **kw),
@@ -131,10 +133,13 @@ def check_object(cls, obj, traces, factor, frames, scale, displayed=None):
     if cls in ("TriangularMeshMulti", "TriangularMeshUnchecked"):
         PAR_cls, cls = PAR[cls], "TriangularMesh"
         return _check_object(cls, obj, traces, factor, frames, scale, displayed, PAR_cls)
+    if cls == "TriangleNormalPol":
+        # the sheet is drawn with a thickness of a small fraction of its size: vertices within 2.5e-3 sizes of the triangle's
+        return _check_object("Triangle", obj, traces, factor, frames, scale, displayed, PAR[cls], vtol=2.5e-3)
     return _check_object(cls, obj, traces, factor, frames, scale, displayed, PAR.get(cls, {}))
 
 
-def _check_object(cls, obj, traces, factor, frames, scale, displayed, PARc):
+def _check_object(cls, obj, traces, factor, frames, scale, displayed, PARc, vtol=1e-9):
     from scipy.spatial.transform import Rotation as R
 
     problems = []
@@ -173,7 +178,7 @@ def _check_object(cls, obj, traces, factor, frames, scale, displayed, PARc):
             loc = back(V, m)
             if cls in ("Tetrahedron", "TriangularMesh", "Triangle"):
                 vv = np.array(par["vertices"], float)
-                ok = np.min(np.linalg.norm(loc[:, None, :] - vv[None], axis=2), axis=1) < 1e-9 * size
+                ok = np.min(np.linalg.norm(loc[:, None, :] - vv[None], axis=2), axis=1) < vtol * size
             else:
                 ok = geo.classify(cls, par, loc, band=1e-9) == 0
             owner[(owner < 0) & ok] = m
@@ -200,7 +205,7 @@ def _check_object(cls, obj, traces, factor, frames, scale, displayed, PARc):
             loc = back(V[owner == m], m)
             if cls in ("Tetrahedron", "TriangularMesh", "Triangle"):
                 vv = np.array(par["vertices"], float)
-                miss = np.min(np.linalg.norm(vv[:, None, :] - loc[None], axis=2), axis=1) > 1e-9 * size
+                miss = np.min(np.linalg.norm(vv[:, None, :] - loc[None], axis=2), axis=1) > vtol * size
                 if miss.any():
                     problems.append("body-vertices-not-drawn")
                     break
@@ -336,9 +341,9 @@ def run_case(c):
     for flag in ("style_magnetization_show", "style_arrow_show", "style_orientation_show"):
         pass
     skw = {}
-    if cls in ("Cuboid", "Cylinder", "CylinderSegment", "Sphere", "Tetrahedron", "TriangularMesh", "Triangle", "TriangularMeshMulti", "TriangularMeshUnchecked"):
+    if cls in ("Cuboid", "Cylinder", "CylinderSegment", "Sphere", "Tetrahedron", "TriangularMesh", "Triangle", "TriangularMeshMulti", "TriangularMeshUnchecked", "TriangleNormalPol"):
         obj.style.magnetization.show = False
-    if cls == "Triangle":
+    if cls in ("Triangle", "TriangleNormalPol"):
         obj.style.orientation.show = False
     if cls in ("TriangularMesh", "TriangularMeshMulti", "TriangularMeshUnchecked"):
         obj.style.orientation.show = False
@@ -424,7 +429,7 @@ def run_fault(c):
     objs = [mk("Cuboid" if cls != "Cuboid" else "Sphere", "transl3"), mk(cls, "rot4"), mk("Sensor", "static")]
     objs[0].style.color, objs[2].style.color = "#111111", "#222222"
     objs = objs[-pos:] + objs[:-pos] if pos else objs        # position of the faulty object in the argument list
-    bad = [o for o in objs if type(o).__name__ == ("Dipole" if cls.startswith("Dipole") else "TriangularMesh" if cls.startswith("TriangularMesh") else cls)][-1] if cls != "Sensor" else objs[(2 + pos) % 3]
+    bad = [o for o in objs if type(o).__name__ == ("Dipole" if cls.startswith("Dipole") else "TriangularMesh" if cls.startswith("TriangularMesh") else "Triangle" if cls == "TriangleNormalPol" else cls)][-1] if cls != "Sensor" else objs[(2 + pos) % 3]
     kw = {"backend": "plotly", "return_fig": True}
 
     calls = {"n": 0}
@@ -507,9 +512,9 @@ def run_mpl(c):
     cls, pk, frames, unit = c["cls"], c["path"], c["frames"], c["unit"]
     scale = {"m": 1.0, "mm": 1e-3, "km": 1e3}[unit] if c.get("scaled") else 1.0
     obj = mk(cls, pk, scale)
-    if cls in ("Cuboid", "Cylinder", "CylinderSegment", "Sphere", "Tetrahedron", "TriangularMesh", "Triangle", "TriangularMeshMulti", "TriangularMeshUnchecked"):
+    if cls in ("Cuboid", "Cylinder", "CylinderSegment", "Sphere", "Tetrahedron", "TriangularMesh", "Triangle", "TriangularMeshMulti", "TriangularMeshUnchecked", "TriangleNormalPol"):
         obj.style.magnetization.show = False
-    if cls in ("Triangle", "TriangularMesh"):
+    if cls in ("Triangle", "TriangularMesh", "TriangleNormalPol", "TriangularMeshMulti", "TriangularMeshUnchecked"):
         obj.style.orientation.show = False
     if cls in ("Circle", "Polyline"):
         obj.style.arrow.show = False
